@@ -33,7 +33,7 @@ def run(prop, tier, seed, replay=None):
         quick = tier == "quick"
         if replay:
             r = json.load(open(replay))
-            jobs = [(r["type"], r["nkeys"], r["flag"], [json.dumps(r["case"])])]
+            jobs = [(r["type"], r["nkeys"], r["flag"], [json.dumps(r["case"])], r.get("layer", "fd"))]
         else:
             clear_replays(prop)
             jobs = []
@@ -54,19 +54,26 @@ def run(prop, tier, seed, replay=None):
                     b = printed_raw(out, "B")
                     log("[%s] %s %s: %d states, %d cases/behaviours" % (prop, typ, mode, st["distinct"], len(b)))
                     cases += b
-                jobs.append((typ, nk, flag, cases))
+                jobs.append((typ, nk, flag, cases, "fd"))
+                # the same cases end to end: FeatureLocal API, write / notify / reply datagrams, FeatureRemote cache
+                # (quick: all histories and every third single-update case)
+                e2e = [c for i, c in enumerate(cases) if not quick or i % 3 == 0 or '"init":[]' in c.replace(" ", "")]
+                jobs.append((typ, nk, flag, e2e, "e2e"))
         viol, total_steps, total_lines, devs_used, samples, distinct = 0, 0, 0, {}, [], set()
         ncases = 0
-        for typ, nk, flag, cases in jobs:
+        layer_steps = {"fd": 0, "e2e": 0}
+        for typ, nk, flag, cases, layer in jobs:
             ncases += len(cases)
             shards = shard(cases, NCPU)
             files = []
             for i, sh in enumerate(shards):
-                bf, tf = sc.path("%s_%d.in" % (typ, i)), sc.path("%s_%d.trace" % (typ, i))
+                bf, tf = sc.path("%s_%s_%d.in" % (typ, layer, i)), sc.path("%s_%s_%d.trace" % (typ, layer, i))
                 open(bf, "w").write("\n".join(sh) + "\n")
                 files.append((bf, tf))
-            stats = pmap(lambda f: json.loads(run_harness(["list-replay", "-type", typ, "-in", f[0], "-out", f[1]])), files)
+            sub = "list-replay" if layer == "fd" else "list-e2e"
+            stats = pmap(lambda f: json.loads(run_harness([sub, "-type", typ, "-in", f[0], "-out", f[1]])), files)
             total_steps += sum(s["steps"] for s in stats)
+            layer_steps[layer] += sum(s["steps"] for s in stats)
             cfg = cfg_text("TraceSpec", {"KnownDeviations": set(known.keys()), "HasFlag": flag, "Checked": {tag}}, invariants=["Final"], postcondition="Done")
 
             def val(f):
@@ -98,16 +105,17 @@ def run(prop, tier, seed, replay=None):
                     if tl is None:
                         tl = open(tf).read().splitlines()
                     e = json.loads(tl[b["line"] - 1])
-                    key = (e["u"]["partial"], e["u"]["delete"], e["u"]["remote"], e["u"]["persist"], b["why"], len(e["u"]["data"]))
+                    key = (e.get("path", "fd"), e["u"]["partial"], e["u"]["delete"], e["u"]["remote"], e["u"]["persist"], b["why"], len(e["u"]["data"]))
                     if key in seen:
                         continue
                     seen.add(key)
                     viol += 1
-                    path = write_replay(prop, "%s_%s_%s_%s" % (typ, e["u"]["partial"], e["u"]["delete"], b["why"].replace(" ", "-")[:20]),
-                                        {"property": prop, "type": typ, "nkeys": nk, "flag": flag, "case": {"init": e["pre"], "ups": [e["u"]]},
+                    path = write_replay(prop, "%s_%s_%s_%s_%s" % (typ, e.get("path", "fd"), e["u"]["partial"], e["u"]["delete"], b["why"].replace(" ", "-")[:20]),
+                                        {"property": prop, "type": typ, "nkeys": nk, "flag": flag, "layer": layer, "path": e.get("path", "fd"),
+                                         "case": json.loads(open(bf).read().splitlines()[e["ci"]]) if b["why"] in ("snapshot changed",) or replay else {"init": e["pre"], "ups": [e["u"]]},
                                          "observed": {"ok": e["ok"], "store": e["store"], "ret": e["ret"], "snapchg": e["snapchg"], "panic": e["panic"]}, "why": b["why"]})
                     print("VIOLATION property=%s replay=%s" % (prop, path))
-                    print("  %s list %s, update %s: %s" % (typ, json.dumps(e["pre"]), json.dumps(e["u"]), b["why"]))
+                    print("  %s (%s) list %s, update %s: %s" % (typ, e.get("path", "FunctionData"), json.dumps(e["pre"]), json.dumps(e["u"]), b["why"]))
                 if isinstance(devs, dict):
                     for name, d in devs.items():
                         if name not in devs_used:
@@ -116,7 +124,7 @@ def run(prop, tier, seed, replay=None):
                         devs_used[name]["n"] += d["n"]
             for l in lines[:3000]:
                 e = json.loads(l)
-                distinct.add((typ, e["u"]["partial"], e["u"]["delete"], e["u"]["remote"], e["u"]["persist"], len(e["u"]["data"]), e["ok"], len(e["pre"]), len(e["store"])))
+                distinct.add((typ, e.get("path", "fd"), e["u"]["partial"], e["u"]["delete"], e["u"]["remote"], e["u"]["persist"], len(e["u"]["data"]), e["ok"], len(e["pre"]), len(e["store"])))
                 if len(samples) < 3 and e["u"]["partial"] != "none" and e["pre"]:
                     samples.append({"type": typ, "pre": e["pre"], "update": e["u"], "ok": e["ok"], "store": e["store"]})
         if replay:
@@ -136,7 +144,7 @@ def run(prop, tier, seed, replay=None):
                "distinct_nontrivial": len(distinct),
                "rule": "every (existing list, update) pair of the small domain (TLC initial-state enumeration) and BFS transition cover of update histories, for three list types; "
                        "distinct = distinct (type, filter shape, origin, persist, data length, outcome, list lengths) classes in a sample of the trace",
-               "samples": samples, "trace_lines": total_lines, "exhaustive": True, "deviations_used": {k: v["n"] for k, v in devs_used.items()},
+               "samples": samples, "trace_lines": total_lines, "steps_by_layer": layer_steps, "exhaustive": True, "deviations_used": {k: v["n"] for k, v in devs_used.items()},
                "binding_selftest": {"done": True, "rejected": True},
                "checker_cmd": "tlc ListMC.tla (INVARIANT Inv, PROPERTY StepProperty); tlc ListTrace.tla"}
         level = "model_checking"
